@@ -41,6 +41,9 @@ def run_check(pid, tier, seed, replay=None):
     ev_path = os.path.join(VERIF, 'evidence', f'{pid}.json')
     if os.path.exists(ev_path):
         os.remove(ev_path)
+    old_rp = os.path.join(VERIF, 'replays', f'{pid}-{tier}-{seed}.json')
+    if os.path.exists(old_rp):
+        os.remove(old_rp)
     broken = []          # names of ties/theorems that no longer check
     tool_failure = None
     report = {}
